@@ -66,6 +66,9 @@ def worker(case: Dict[str, Any]) -> CaseResult:
     replay_case["_queries"] = queries
     with core.Scratch() as root:
         cfg = write_case(root, sdl, queries, cfg_full)
+        if case["idx"] % 5 == 1 and not case.get("config_rel"):
+            from ..genpkg import plant_stale_bundled_copies
+            stats["stale_bundled_copies_planted"] = plant_stale_bundled_copies(root, cfg)  # the target holds another release's copies: they must be replaced
         if case["idx"] % 4 == 3:
             # something was generated in this interpreter before: the same inputs with nothing configured
             from ..genpkg import DECOY_KINDS, decoy_generations
@@ -79,6 +82,10 @@ def worker(case: Dict[str, Any]) -> CaseResult:
             pkg = import_package(root, cfg.get("target_package_name", "graphql_client"))
             cw.import_all_modules(pkg, gen.package_dir)
         except BaseException as e:  # noqa: BLE001
+            if "copy left by an older release" in str(e):
+                # what the harness planted in the target before generating is still there: no call can send anything through this package
+                return CaseResult("violated", [Violation(PROP, "request-sent", "the package generated into a target that held another release's copies of the bundled files does not load: "
+                                                         "%s: %s" % (type(e).__name__, str(e)[:300]), sorted(feats), replay_case, mech="c03:stale-bundled-copy").to_json()], stats, {"features": sorted(feats)})
             return CaseResult("inconclusive", note="package import failed (%s) - C04's concern" % type(e).__name__, stats={"import_failed": 1})
         server = RefServer(schema_ref)
         from ..deps import make_tracer
